@@ -483,14 +483,28 @@ def gauge_post(cx, mps, d):
     return c08.forall_sites(Implies(And(0 < K, K < f["L"]), c08.sel(f["isR"], K)))
 
 
-def perform(cx, ref, d, frac, node, who):
+def centre_ok(c, d):
+    """abstract gauge flag g_centre (used by the callers of sweep instead of the quantified isL / isR facts, which the
+    body proof of sweep relates to it): 0 = centre at site 0 (what a left sweep leaves: all k>0 right isometries),
+    1 = centre at site L-1 (what a right sweep leaves), 3 = only sites 2..L-1 known right-isometric (after an
+    imaginary-time left sweep).  A right sweep (d=0) needs 0 or 3, a left sweep (d=1) needs 1."""
+    if isinstance(c, int):
+        return c in (0, 3) if d == 0 else c == 1
+    return Or(c == 0, c == 3) if d == 0 else c == 1
+
+
+def perform(cx, ref, d, frac, node, who, quantified=True):
     """abstract effect of one performed sweep of direction flag d (proved for the body of TEBD.sweep)"""
     f = cx.fields(ref)
     L, cyclic = f["L"], f["cyclic"]
     mps = f["_pt"]
     if not cyclic:
-        cx.oblige(f"call-pre@{node.lineno}:{who}:gauge: orthogonality centre at the first bond of the {('right', 'left')[d]} sweep",
-                  "call-pre", gauge_pre(cx, mps, d), node.lineno)
+        lab = f"call-pre@{node.lineno}:{who}:gauge: orthogonality centre at the first bond of the {('right', 'left')[d]} sweep"
+        if quantified:
+            cx.oblige(lab, "call-pre", gauge_pre(cx, mps, d), node.lineno)
+        else:
+            cx.oblige(lab, "call-pre", centre_ok(f["g_centre"], d), node.lineno)
+        f["g_centre"] = (1 - d) if (d == 0 or not f["imag"]) else 3
     f["g_S"] = Sw(z3.IntVal(d), R(frac), f["g_S"])
     amt, cnt = cx.Array("g_amt", z3.IntSort(), Re), cx.Array("g_cnt", z3.IntSort(), z3.IntSort())
     hit = in_dir(KB, d, L, cyclic)
@@ -499,7 +513,7 @@ def perform(cx, ref, d, frac, node, who):
     f["g_amt"], f["g_cnt"] = amt, cnt
     m = cx.fields(mps)
     m["isL"], m["isR"] = cx.Array("isL", z3.IntSort(), z3.BoolSort()), cx.Array("isR", z3.IntSort(), z3.BoolSort())
-    if not cyclic:
+    if not cyclic and quantified:
         if d == 0 or not f["imag"]:
             cx.assume(gauge_post(cx, mps, d))
         else:
@@ -515,7 +529,7 @@ def new_tebd(cx, cyclic=False, imag=False, queue=ABSENT, L=None, **extra):
     fields = dict(L=L, cyclic=cyclic, imag=imag, _pt=mps, _dt=cx.Real("_dt"), t=cx.Real("t"), t0=cx.Real("t0"),
                   _err=cx.Real("err"), _ham_norm=cx.Real("ham_norm"), dt=None, tol=None, progbar=False, split_opts={},
                   H=cx.Opaque("H"), g_S=cx.Val("S"), g_amt=cx.Array("g_amt", z3.IntSort(), Re),
-                  g_cnt=cx.Array("g_cnt", z3.IntSort(), z3.IntSort()), g_nsteps=0, g_nyield=0)
+                  g_cnt=cx.Array("g_cnt", z3.IntSort(), z3.IntSort()), g_nsteps=0, g_nyield=0, g_centre=cx.Int("centre"))
     if queue is not ABSENT:
         fields["_queued_sweep"] = queue
     fields.update(extra)
@@ -554,6 +568,10 @@ class TEBDContract(SeqMixin, c08.MPSContract):
             return r
         if name == "hasattr" and isinstance(args[0], Ref):
             return args[1] in cx.fields(args[0])
+        if name == "__binop__" and (args[1] is None or args[2] is None):
+            raise PyRaise("TypeError", line)  # arithmetic on None
+        if name == "list" and len(args) == 1 and isinstance(args[0], Seq):
+            return args[0]
         if name == "__pow__":
             return pw(args[0], args[1])
         if name == "continuous_progbar":
@@ -913,6 +931,561 @@ class Sweep(TEBDContract):
         if present and qd == d and queue:
             cx.assume(Sw(z3.IntVal(d), R(fe), Sw(z3.IntVal(d), R(qf), S0)) == Sw(z3.IntVal(d), R(qf) + R(fe), S0))  # def-MERGE
         for (dd, ff) in performed:
-            perform(cx, ref, dd, ff, node, "sweep")
+            perform(cx, ref, dd, ff, node, "sweep", quantified=isinstance(cx.contract, Sweep))
         set_queue(f, rep, np_, nd, nf)
         return None
+
+
+# ======================================================================================================
+# TEBD time bookkeeping: _get_gate_from_ham, choose_time_step, _compute_sweep_dt_tol, step, update_to, at_times
+# ======================================================================================================
+
+POW = z3.Function("pow", Re, Re, Re)
+
+
+def step_plan(order, present, qd, qf, queue, scale):
+    """simulate the queue over one step: (performed list, new queue, expected logical-state builder)"""
+    performed = []
+    for k, frac in spec_schedule(2, order):
+        fe = frac if scale is None else Z(R(frac)) * scale
+        p, (present, qd, qf) = Sweep.plan(present, qd, qf, queue, k, fe)
+        performed.extend(p)
+    return performed, (present, qd, qf)
+
+
+def stepD(order, scale, D):
+    """logical state after one step applied to D: the schedule's sweeps in order (unmerged form)"""
+    for k, frac in spec_schedule(2, order):
+        fe = R(frac) if scale is None else Z(R(frac)) * scale
+        D = Sw(z3.IntVal(k), Z(fe), D)
+    return D
+
+
+@register
+class GetGateFromHam(TEBDContract):
+    """the gate for (fraction, sites) is expm(x * H_sites) with x = -i*_dt*fraction (real time) / -_dt*fraction (imaginary)"""
+
+    target = f"{TEBDC}._get_gate_from_ham"
+    floor = 2
+
+    def cases(self):
+        return [NS(name=f"imag={im}", imag=im) for im in (False, True)]
+
+    def inputs(self, cx, case):
+        ref = new_tebd(cx, imag=case.imag)
+        return dict(self=ref, dt_frac=cx.Real("dt_frac"), sites=(cx.Int("a"), cx.Int("b")))
+
+    def call(self, cx, name, args, kwargs, node):
+        if name == "__binop__" and args[0] == "Sub" and isinstance(args[2], complex) and not is_z3(args[1]) and args[1] == 0:
+            return -args[2]  # unary minus on a complex constant
+        if name == "__binop__" and args[0] == "Mult":
+            a, b = args[1], args[2]
+            if isinstance(a, complex) and a.real == 0 and is_num(b):
+                return ("imag", a.imag * R(b) if is_z3(b) else a.imag * b)
+            if isinstance(a, tuple) and a and a[0] == "imag" and is_num(b):
+                return ("imag", a[1] * R(b) if is_z3(a[1]) or is_z3(b) else a[1] * b)
+            return NotImplemented
+        if name == ".get_gate_expm":
+            return ("gate_expm", args[1], args[2])
+        return super().call(cx, name, args, kwargs, node)
+
+    def attr(self, cx, base, attr, node):
+        return super().attr(cx, base, attr, node)
+
+    def ensures(self, a, r, cx, case):
+        f = cx.fields(a.self)
+        ok = isinstance(r, tuple) and len(r) == 3 and r[0] == "gate_expm"
+        d = {"returns-cached-exponential-of-the-term": ok}
+        if ok:
+            d["for-the-requested-sites"] = veq(tuple(r[1]), tuple(a.sites))
+            x = r[2]
+            want = -(f["_dt"] * a.dt_frac)
+            if case.imag:
+                d["exponent==-_dt*fraction (imaginary time)"] = is_num(x) and Z(R(x)) == want
+            else:
+                d["exponent==-i*_dt*fraction (real time)"] = isinstance(x, tuple) and x[0] == "imag" and Z(R(x[1])) == want
+        return d
+
+
+@register
+class ChooseTimeStep(TEBDContract):
+    target = f"{TEBDC}.choose_time_step"
+    floor = 2
+
+    def inputs(self, cx, case):
+        return dict(self=new_tebd(cx), tol=cx.Real("tol"), T=cx.Real("T"), order=cx.ghost.setdefault("order", 2))
+
+    def cases(self):
+        return [NS(name=f"order={o}", order=o) for o in (1, 2, 4)]
+
+    def inputs(self, cx, case):  # noqa: F811
+        ref = new_tebd(cx)
+        a = NS(dict(self=ref, tol=cx.Real("tol"), T=cx.Real("T"), order=case.order))
+        for c in self.reqs(cx, a).values():
+            cx.assume(c)
+        return a
+
+    def reqs(self, cx, a):
+        f = cx.fields(a.self)
+        return {"span-and-norm-nonzero": And(a.T != 0, f["_ham_norm"] != 0)}
+
+    @staticmethod
+    def spec(f, a):
+        return POW(R(a.tol) / (R(a.T) * R(f["_ham_norm"])), Z(R(fractions.Fraction(1, a.order))))
+
+    def ensures(self, a, r, cx, case):
+        f = cx.fields(a.self)
+        return {"dt==(tol/(T*|H|))**(1/order)": is_z3(r) and r == self.spec(f, a)}
+
+    def apply(self, cx, a, node, case=None):
+        for lab, c in self.reqs(cx, a).items():
+            cx.oblige(f"call-pre@{node.lineno}:choose_time_step:{lab}", "call-pre", c, node.lineno)
+        f = cx.fields(a.self)
+        r = self.spec(f, a)
+        # [leaf] a real power of a positive base is positive
+        cx.assume(Implies(R(a.tol) / (R(a.T) * R(f["_ham_norm"])) > 0, r > 0))
+        return r
+
+
+def truthy(x):
+    if x is None or x is False:
+        return False
+    return Z(R(x)) != 0
+
+
+@register
+class ComputeSweepDtTol(TEBDContract):
+    """exactly one of (dt, tol) -- after falling back to the instance defaults -- must be set; the step used is dt if
+    given, else the one chosen for the span T - t; returned and stored in _dt"""
+
+    target = f"{TEBDC}._compute_sweep_dt_tol"
+    floor = 20
+
+    def cases(self):
+        return [NS(name=f"dt={a},tol={b},self.dt={c},self.tol={d},order={o}", dt=a, tol=b, sdt=c, stol=d, order=o)
+                for a in ("none", "real") for b in ("none", "real", "False") for c in ("none", "real")
+                for d in ("none", "real") for o in (2, 4)]
+
+    def inputs(self, cx, case):
+        mk = lambda kind, nm: None if kind == "none" else (False if kind == "False" else cx.Real(nm))
+        ref = new_tebd(cx, dt=mk(case.sdt, "self_dt"), tol=mk(case.stol, "self_tol"))
+        a = NS(dict(self=ref, T=cx.Real("T"), dt=mk(case.dt, "dt"), tol=mk(case.tol, "tol"), order=case.order))
+        for c in self.reqs(cx, a).values():
+            cx.assume(c)
+        return a
+
+    @staticmethod
+    def eff(f, a):
+        return (f["dt"] if a.dt is None else a.dt), (f["tol"] if a.tol is None else a.tol)
+
+    def reqs(self, cx, a):
+        f = cx.fields(a.self)
+        de, te = self.eff(f, a)
+        d = {}
+        if de is None and te is not None and te is not False:
+            d["tol-route: span-and-norm-nonzero"] = Implies(truthy(te), And(R(a.T) - R(f["t"]) != 0, f["_ham_norm"] != 0))
+        return d
+
+    def must_raise(self, f, a):
+        de, te = self.eff(f, a)
+        return Or(And(Not(truthy(de)), Not(truthy(te))), And(truthy(de), truthy(te)))
+
+    def spec_dt(self, cx, f, a):
+        de, te = self.eff(f, a)
+        if de is not None:
+            return de
+        return ChooseTimeStep.spec(f, NS(dict(tol=te, T=R(a.T) - R(f["t"]), order=a.order)))
+
+    def ensures_raise(self, a, exc, cx, case):
+        p = cx.pre(a.self)
+        return {"raises-ValueError-only-when-not-exactly-one-of-(dt,tol)": And(exc == "ValueError", self.must_raise(p, a))}
+
+    def ensures(self, a, r, cx, case):
+        f, p = cx.fields(a.self), cx.pre(a.self)
+        want = self.spec_dt(cx, p, a)
+        return {"exactly-one-of-(dt,tol)-set": Not(self.must_raise(p, a)),
+                "returns-the-stored-step": is_num(r) and is_num(f["_dt"]) and Z(R(r)) == Z(R(f["_dt"])),
+                "step==dt-if-given-else-chosen-for-the-span-T-t": is_num(f["_dt"]) and Z(R(f["_dt"])) == Z(R(want)),
+                "frame: time, error, defaults": And(f["t"] == p["t"], f["_err"] == p["_err"]) if True else True,
+                "frame: defaults-untouched": f["dt"] is p["dt"] and f["tol"] is p["tol"]}
+
+    def apply(self, cx, a, node, case=None):
+        for lab, c in self.reqs(cx, a).items():
+            cx.oblige(f"call-pre@{node.lineno}:_compute_sweep_dt_tol:{lab}", "call-pre", c, node.lineno)
+        f = cx.fields(a.self)
+        mr = self.must_raise(f, a)
+        mr = mr if isinstance(mr, bool) else z3.simplify(mr)
+        if cx.decide(mr, node.lineno):
+            raise PyRaise("ValueError", node.lineno)
+        de, te = self.eff(f, a)
+        if de is None:
+            r = ChooseTimeStep.spec(f, NS(dict(tol=te, T=R(a.T) - R(f["t"]), order=a.order)))
+            cx.assume(Implies(R(te) / ((R(a.T) - R(f["t"])) * R(f["_ham_norm"])) > 0, r > 0))  # [leaf] positive power
+        else:
+            r = de
+        f["_dt"] = r
+        return r
+
+
+@register
+class Step(TEBDContract):
+    """one Trotter step: the schedule's sweeps in order (logical state advances by stepD modulo MERGE), time advances by
+    exactly the step used, the error bound accumulates |H| * dt^(order+1)"""
+
+    target = f"{TEBDC}.step"
+    floor = 100
+
+    def cases(self):
+        return [NS(name=f"order={o},dt={dt},queue={q},pending={pend},cyclic={cy}", order=o, dt=dt, queue=q, pend=pend, cyclic=cy)
+                for o in (1, 2, 4) for dt in ("none", "real") for q in ("default", True, False)
+                for pend in ("none", "right", "left") for cy in (False, True)]
+
+    def inputs(self, cx, case):
+        qf = cx.Real("qf")
+        q = QS(case.pend != "none", DIRS.get(case.pend, 0), qf)
+        ref = new_tebd(cx, cyclic=case.cyclic, queue=q)
+        mark_case(cx, case)
+        a = NS(dict(self=ref, order=case.order, dt=None if case.dt == "none" else cx.Real("dt"), progbar=None,
+                    sweep_opts={} if case.queue == "default" else {"queue": case.queue}))
+        for c in self.reqs(cx, a).values():
+            cx.assume(c)
+        for c in self.gauge_reqs(cx, a).values():
+            cx.assume(c)
+        return a
+
+    @staticmethod
+    def scale(f, a):
+        return None if a.dt is None else R(a.dt) / R(f["_dt"])
+
+    def reqs(self, cx, a):
+        f = cx.fields(a.self)
+        return {"_dt!=0": f["_dt"] != 0} if a.dt is not None else {}
+
+    def gauge_reqs(self, cx, a, present=None, qd=None):
+        f = cx.fields(a.self)
+        if f["cyclic"]:
+            return {}
+        if present is None:
+            _, present, qd, _ = get_queue(f)
+        performed, _ = step_plan(a.order, present, qd, 0, bool(a.sweep_opts.get("queue", False)), None)
+        if not performed:
+            return {}
+        return {"gauge: orthogonality centre at the first bond of the first performed sweep":
+                centre_ok(f["g_centre"], performed[0][0])}
+
+    def ensures(self, a, r, cx, case):
+        f, p = cx.fields(a.self), cx.pre(a.self)
+        dte = p["_dt"] if a.dt is None else a.dt
+        queue = bool(a.sweep_opts.get("queue", False))
+        _, present, qd, qf = get_queue(p)
+        performed, (np_, nd, nf) = step_plan(a.order, present, qd, qf, queue, self.scale(p, a))
+        D0 = D_logical(p)
+        _, present1, d1, f1 = get_queue(f)
+        out = {"time-advances-by-the-step-used": f["t"] == p["t"] + R(dte),
+               "error-accumulates-|H|*dt^(order+1)": f["_err"] == p["_err"] + p["_ham_norm"] * pw(R(dte), a.order + 1),
+               "logical-state-advances-by-the-schedule-in-order (modulo merge)": D_logical(f) == stepD(a.order, self.scale(p, a), D0),
+               "queue: present-iff-queueing": present1 == np_,
+               "frame: _dt, |H|": And(f["_dt"] == p["_dt"], f["_ham_norm"] == p["_ham_norm"])}
+        if np_ and present1 is True:
+            out["queue: pending-direction-is-the-schedule's-last"] = d1 == nd
+        if not queue:
+            out["queue: empty-after-queue=False"] = present1 is False
+        if not f["cyclic"] and performed:
+            out["gauge: centre-where-the-last-performed-sweep-leaves-it"] = Z(f["g_centre"]) == 1 - performed[-1][0]
+        return out
+
+    def apply(self, cx, a, node, case=None):
+        ref = a.self
+        f = cx.fields(ref)
+        for lab, c in self.reqs(cx, a).items():
+            cx.oblige(f"call-pre@{node.lineno}:step:{lab}", "call-pre", c, node.lineno)
+        rep, present, qd, qf = get_queue(f)
+        if not isinstance(present, bool):
+            present = cx.decide(present, node.lineno)
+        if present and not isinstance(qd, int):
+            qd0 = qd
+            qd = 0 if cx.decide(Z(qd0) == 0, node.lineno) else 1
+            cx.assume(Z(qd0) == qd)
+        for lab, c in self.gauge_reqs(cx, a, present, qd).items():
+            cx.oblige(f"call-pre@{node.lineno}:step:{lab}", "call-pre", c, node.lineno)
+        queue = bool(a.sweep_opts.get("queue", False))
+        sc = self.scale(f, a)
+        performed, (np_, nd, nf) = step_plan(a.order, present, qd, qf, queue, sc)
+        D0 = Sw(z3.IntVal(qd), R(qf), f["g_S"]) if present else f["g_S"]
+        D1 = stepD(a.order, sc, D0)
+        dte = f["_dt"] if a.dt is None else a.dt
+        f["t"] = f["t"] + R(dte)
+        f["_err"] = f["_err"] + f["_ham_norm"] * pw(R(dte), a.order + 1)
+        f["g_nsteps"] = f["g_nsteps"] + 1
+        if np_:
+            S1, q1 = cx.Val("S"), cx.Real("qf")
+            f["g_S"] = S1
+            f["_queued_sweep"] = QS(True, nd, q1)
+            cx.assume(Sw(z3.IntVal(nd), q1, S1) == D1)
+        else:
+            f["g_S"] = D1
+            f["_queued_sweep"] = QS(False)
+        m = cx.fields(f["_pt"])
+        m["isL"], m["isR"] = cx.Array("isL", z3.IntSort(), z3.BoolSort()), cx.Array("isR", z3.IntSort(), z3.BoolSort())
+        if not f["cyclic"] and performed:
+            f["g_centre"] = 1 - performed[-1][0]
+        return None
+
+
+def mark_case(cx, case):
+    cx.assume(z3.Int("case|" + case.name) == 0)
+
+
+def case_of_model(model):
+    for k in model or {}:
+        if k.startswith("case|"):
+            return dict(kv.split("=", 1) for kv in k[5:].split(","))
+    return {}
+
+
+# ---- recursive spec functions for the while loop of update_to (definitional instances in `facts`)
+Tm = z3.Function("Tm", z3.IntSort(), Re)          # time after n full steps:      Tm(0) = t_entry, Tm(n+1) = Tm(n) + _dt
+Em = z3.Function("Em", z3.IntSort(), Re)          # error bound after n steps:    Em(0) = err0,    Em(n+1) = Em(n) + |H| _dt^(order+1)
+Dm = z3.Function("Dm", z3.IntSort(), V)           # logical state after n steps:  Dm(0) = D0,      Dm(n+1) = stepD(order, 1, Dm(n))
+
+
+@register
+class UpdateTo(TEBDContract):
+    """over the reals: after update_to(T) the time is exactly T; n full steps of size _dt (t = Tm(n), exactly _dt per
+    iteration, so the loop terminates for _dt > 0) followed by one partial step dt_last = T - Tm(n) <= _dt (and > 0 when
+    T lies ahead); the error bound accumulates |H| dt^(order+1) per step; queue empty afterwards"""
+
+    target = f"{TEBDC}.update_to"
+    floor = 60
+
+    def cases(self):
+        out = []
+        for o in (1, 2, 4):
+            for route in ("dt", "self.dt", "tol", "neither", "both"):
+                out.append(NS(name=f"order={o},step-from={route},cyclic=False", order=o, route=route, cyclic=False))
+        out.append(NS(name="order=4,step-from=dt,cyclic=True", order=4, route="dt", cyclic=True))
+        return out
+
+    def inputs(self, cx, case):
+        r = case.route
+        ref = new_tebd(cx, cyclic=case.cyclic, queue=QS(False), dt=cx.Real("self_dt") if r == "self.dt" else None)
+        f = cx.fields(ref)
+        a = NS(dict(self=ref, T=cx.Real("T"), dt=cx.Real("dt") if r in ("dt", "both") else None,
+                    tol=cx.Real("tol") if r in ("tol", "both") else None, order=case.order, progbar=None))
+        cx.ghost.update(t_entry=f["t"], err0=f["_err"], D0=f["g_S"], n0=f["g_nsteps"], order=case.order, T=a.T)
+        mark_case(cx, case)
+        for c in self.reqs(cx, a).values():
+            cx.assume(c)
+        return a
+
+    def reqs(self, cx, a):
+        f = cx.fields(a.self)
+        d = {"queue-empty-on-entry": get_queue(f)[1] is False}
+        de = f["dt"] if a.dt is None else a.dt
+        te = f["tol"] if a.tol is None else a.tol
+        if de is not None and de is not False:
+            d["time-step-positive"] = R(de) > 0
+        if te is not None and te is not False:
+            d["tolerance-positive"] = R(te) > 0
+            if de is None:
+                d["tol-route: target ahead, |H| > 0"] = And(R(a.T) > f["t"], f["_ham_norm"] > 0)
+        if not f["cyclic"]:
+            d["gauge: orthogonality centre at site 0 on entry (the first sweep is a right sweep)"] = centre_ok(f["g_centre"], 0)
+        return d
+
+    def ensures_raise(self, a, exc, cx, case):
+        p = cx.pre(a.self)
+        if exc == "NotImplementedError":
+            return {"raises-NotImplementedError-only-for-a-target-in-the-past": R(a.T) < p["t"] - z3.RealVal("1/10000000000000")}
+        return {"raises-ValueError-only-when-not-exactly-one-of-(dt,tol)": exc == "ValueError" and case.route in ("neither", "both")}
+
+    def havoc_more(self, cx, f):
+        f["t"], f["_err"], f["g_nsteps"] = cx.Real("t"), cx.Real("err"), cx.Int("nsteps")
+        f["_queued_sweep"] = QS(cx.Bool("q_present"), cx.Int("q_dir"), cx.Real("q_frac"))
+        f["g_centre"] = cx.Int("centre")
+
+    def inv(self, v):
+        cx = v.cx
+        g = NS(cx.ghost)
+        f = cx.fields(g.self)
+        n = Z(f["g_nsteps"]) - Z(g.n0)
+        _, present, qd, qf = get_queue(f)
+        last = spec_schedule(2, g.order)[-1][0]
+        d = {"n>=0": n >= 0,
+             "t==Tm(n)  (exactly _dt per iteration)": f["t"] == Tm(n),
+             "err==Em(n)": f["_err"] == Em(n),
+             "logical-state==Dm(n)": D_logical(f) == Dm(n),
+             "not-past-the-target": Or(n == 0, f["t"] < R(g.T)),
+             "_dt-fixed-and-positive": And(f["_dt"] == g.dt_used, f["_dt"] > 0),
+             "queue: empty-before-the-first-step, else the schedule's last direction pending":
+                 If(n == 0, Not(present), And(present, Z(qd) == last))}
+        if not f["cyclic"]:
+            # flag: before the first step the centre is where the entry condition says; afterwards where the sweep
+            # performed last (the one before the pending one) left it
+            d["gauge"] = If(n == 0, centre_ok(f["g_centre"], 0), Z(f["g_centre"]) == last)
+        return d
+
+    def facts(self, v):
+        cx = v.cx
+        g = NS(cx.ghost)
+        f = cx.fields(g.self)
+        n = Z(f["g_nsteps"]) - Z(g.n0)
+        c = f["_ham_norm"] * pw(R(g.dt_used), g.order + 1)
+        return [Tm(0) == g.t_entry, Em(0) == g.err0, Dm(0) == g.D0,
+                Tm(n + 1) == Tm(n) + R(g.dt_used), Em(n + 1) == Em(n) + c, Dm(n + 1) == stepD(g.order, None, Dm(n))]
+
+    def call(self, cx, name, args, kwargs, node):
+        r = super().call(cx, name, args, kwargs, node)
+        if name == "._compute_sweep_dt_tol":
+            cx.ghost["dt_used"] = cx.fields(args[0])["_dt"]
+        return r
+
+    @property
+    def loops(self):
+        return {0: Loop("while self.t < T - self._dt", self.inv, facts=self.facts,
+                        decreases=lambda v: R(v.cx.ghost["T"]) - v.cx.fields(v.cx.ghost["self"])["t"])}
+
+    def ensures(self, a, r, cx, case):
+        g = NS(cx.ghost)
+        f, p = cx.fields(a.self), cx.pre(a.self)
+        n = Z(f["g_nsteps"]) - Z(g.n0) - 1  # full steps before the final partial one
+        dt_last = R(a.T) - Tm(n)
+        de = p["dt"] if a.dt is None else a.dt
+        want_dt = de if de is not None else ChooseTimeStep.spec(p, NS(dict(tol=a.tol, T=R(a.T) - p["t"], order=a.order)))
+        out = {"route-valid": case.route not in ("neither", "both"),
+               "t'==T exactly": f["t"] == R(a.T),
+               "n>=0 full steps": n >= 0,
+               "step-used": f["_dt"] == Z(R(want_dt)),
+               "last-partial-step<=_dt": dt_last <= f["_dt"],
+               "last-partial-step>0-when-target-ahead": Implies(R(a.T) > p["t"], dt_last > 0),
+               "error==Em(n)+|H|*dt_last^(order+1)": f["_err"] == Em(n) + p["_ham_norm"] * pw(dt_last, a.order + 1),
+               "state==n full steps then one step scaled by dt_last/_dt": D_logical(f) == stepD(a.order, dt_last / f["_dt"], Dm(n)),
+               "queue: empty-afterwards": get_queue(f)[1] is False}
+        return out
+
+    def apply(self, cx, a, node, case=None):
+        """callee use (at_times): time bookkeeping, queue and gauge flag; the state chain is summarised by a fresh value"""
+        f = cx.fields(a.self)
+        for lab, c in self.reqs(cx, a).items():
+            cx.oblige(f"call-pre@{node.lineno}:update_to:{lab}", "call-pre", c, node.lineno)
+        if cx.decide(R(a.T) < f["t"] - z3.RealVal("1/10000000000000"), node.lineno):
+            raise PyRaise("NotImplementedError", node.lineno)
+        cx.call_contract(REGISTRY[f"{TEBDC}._compute_sweep_dt_tol"], [a.T, a.dt, a.tol, a.order], {}, node, recv=a.self)
+        f["t"] = R(a.T)
+        f["_err"] = cx.Real("err")
+        f["g_S"] = cx.Val("S")
+        f["g_nsteps"] = cx.Int("nsteps")
+        f["_queued_sweep"] = QS(False)
+        last = spec_schedule(2, a.order)[-1][0]
+        if not f["cyclic"]:
+            f["g_centre"] = 1 - last  # where the final (queue=False) step's last sweep leaves the centre
+        return None
+
+
+@register
+class AtTimes(TEBDContract):
+    """visits every requested time in ascending order: the j-th yielded state is a copy of the state at time
+    sorted(ts)[j]; one yield per requested time; the step is fixed once for the whole span"""
+
+    target = f"{TEBDC}.at_times"
+    floor = 20
+
+    def cases(self):
+        return [NS(name=f"order={o},step-from={r}", order=o, route=r) for o in (2, 4) for r in ("dt", "self.dt", "tol")]
+
+    def inputs(self, cx, case):
+        r = case.route
+        ref = new_tebd(cx, queue=QS(False), dt=cx.Real("self_dt") if r == "self.dt" else None)
+        f = cx.fields(ref)
+        n = cx.Int("n")
+        ts = Seq([("sym", n, lambda j, arr=cx.Array("ts", z3.IntSort(), Re): z3.Select(arr, j))])
+        srt = cx.Array("ts_sorted", z3.IntSort(), Re)
+        cx.ghost.update(n=n, srt=srt, t_entry=f["t"], order=case.order)
+        a = NS(dict(self=ref, ts=ts, dt=cx.Real("dt") if r == "dt" else None, tol=cx.Real("tol") if r == "tol" else None,
+                    order=case.order, progbar=None))
+        cx.assume(And(n >= 1))
+        de = f["dt"] if a.dt is None else a.dt
+        if de is not None:
+            cx.assume(R(de) > 0)
+        if a.tol is not None:
+            cx.assume(And(a.tol > 0, f["_ham_norm"] > 0, z3.Select(srt, n - 1) > f["t"]))
+        cx.assume(centre_ok(f["g_centre"], 0))
+        # finding A makes consecutive update_to calls start with the centre at L-1: the gauge entry condition of the
+        # second call is NOT established by the first (see update_to); here it is checked per call
+        return a
+
+    def call(self, cx, name, args, kwargs, node):
+        if name == "sorted" and isinstance(args[0], Seq):
+            # [leaf] sorted(): ascending rearrangement of the same multiset of times
+            n, srt = cx.ghost["n"], cx.ghost["srt"]
+            return Seq([("sym", n, lambda j: z3.Select(srt, j))])
+        if name == "__getitem__" and isinstance(args[0], Seq):
+            s, idx = args
+            if isinstance(idx, int) and idx < 0:
+                idx = s.length() + idx
+            cx.oblige(f"index@{node.lineno}", "safety", And(0 <= Z(idx), Z(idx) < s.length()), node.lineno)
+            return s.at(idx)
+        if name == "Progbar":
+            return args[0]
+        return super().call(cx, name, args, kwargs, node)
+
+    def havoc_more(self, cx, f):
+        f["t"], f["_err"], f["g_nsteps"] = cx.Real("t"), cx.Real("err"), cx.Int("nsteps")
+        f["g_nyield"] = cx.Int("nyield")
+        f["g_centre"] = cx.Int("centre")
+        f["_dt"] = cx.Real("_dt")
+
+    def inv(self, v):
+        cx = v.cx
+        g = NS(cx.ghost)
+        f = cx.fields(g.self)
+        j = Z(v._it0)
+        d = {"j<=n": j <= g.n, "one-yield-per-visited-time": Z(f["g_nyield"]) == j,
+             "time-is-last-requested": If(j == 0, f["t"] == g.t_entry, f["t"] == z3.Select(g.srt, j - 1)),
+             "queue-empty-between-targets": get_queue(f)[1] is False,
+             "step-fixed-for-the-whole-span": f["_dt"] == g.dt_used,
+             # where the previous update_to (whose final step ends with the schedule's last sweep) left the centre
+             "gauge": If(j == 0, centre_ok(f["g_centre"], 0), Z(f["g_centre"]) == 1 - spec_schedule(2, g.order)[-1][0])}
+        return d
+
+    def facts(self, v):
+        g = NS(v.cx.ghost)
+        j = Z(v._it0)
+        # def-sorted: instances of  i <= j => sorted[i] <= sorted[j]
+        return [Implies(And(j >= 1, j < g.n), z3.Select(g.srt, j - 1) <= z3.Select(g.srt, j)),
+                Implies(And(0 <= j, j < g.n), z3.Select(g.srt, j) <= z3.Select(g.srt, g.n - 1))]
+
+    @property
+    def loops(self):
+        return {0: Loop("for t in ts", self.inv_snap, facts=self.facts)}
+
+    def inv_snap(self, v):
+        cx = v.cx
+        if "dt_used" not in cx.ghost:
+            cx.ghost["dt_used"] = cx.fields(cx.ghost["self"])["_dt"]
+        return self.inv(v)
+
+    def on_yield(self, cx, value, node):
+        g = NS(cx.ghost)
+        f = cx.fields(g.self)
+        j = Z(cx.env["_it0"])
+        ok = isinstance(value, Ref) and value.kind == "MPS" and value != f["_pt"]
+        cx.oblige(f"yield@{node.lineno}:yields-a-copy-of-the-state", "post", ok, node.lineno)
+        if ok:
+            vf = cx.fields(value)
+            cx.oblige(f"yield@{node.lineno}:state-at-requested-time-sorted(ts)[j]", "post",
+                      And(vf["g_t"] == z3.Select(g.srt, j), vf["g_S"] == f["g_S"]), node.lineno)
+        cx.oblige(f"yield@{node.lineno}:j-th-yield-in-iteration-j", "post", Z(f["g_nyield"]) == j, node.lineno)
+        f["g_nyield"] = f["g_nyield"] + 1
+        return None
+
+    def ensures_raise(self, a, exc, cx, case):
+        g = NS(cx.ghost)
+        # only a requested time in the past may be rejected
+        return {"raises-NotImplementedError-only-for-a-requested-time-in-the-past":
+                And(exc == "NotImplementedError", z3.Select(g.srt, 0) < g.t_entry - z3.RealVal("1/10000000000000"))}
+
+    def ensures(self, a, r, cx, case):
+        g = NS(cx.ghost)
+        f = cx.fields(a.self)
+        return {"yields==len(ts)": Z(f["g_nyield"]) == g.n, "ends-at-the-largest-requested-time": f["t"] == z3.Select(g.srt, g.n - 1)}
